@@ -32,8 +32,6 @@ import (
 	"testing"
 	"time"
 
-	"go.uber.org/zap"
-	"go.uber.org/zap/zapcore"
 
 	"go.opentelemetry.io/collector/component"
 	"go.opentelemetry.io/collector/component/componentstatus"
@@ -103,11 +101,14 @@ type v20World struct {
 	col      *Collector
 	gens     []v20Gen
 	provFail bool
+	nURI     int // configuration URIs served by provider 0 ("v20:cfg", "v20:x1", ...)
+	nAux     int // further registered providers: #1 "v20a" is used for one ${v20a:n} expansion only, #2 "v20b" is never used
 	log      []v20Ev
 
 	retrieveN int
 	watcher   confmap.WatcherFunc
-	provShut  int
+	provShut  int         // Shutdown calls on provider 0
+	provShutBy map[int]int // Shutdown calls per registered provider
 
 	arrived chan int
 	release chan struct{}
@@ -148,12 +149,33 @@ func (w *v20World) pause(kind int) {
 }
 
 // ---- scripted provider ----------------------------------------------------------------------------
-type v20Provider struct{ w *v20World }
+type v20Provider struct {
+	w  *v20World
+	id int // 0 "v20" serves every configuration URI, 1 "v20a" only a ${v20a:n} expansion, 2 "v20b" nothing
+}
 
-func (p *v20Provider) Scheme() string { return "v20" }
+func (p *v20Provider) Scheme() string { return []string{"v20", "v20a", "v20b"}[p.id] }
 
-func (p *v20Provider) Retrieve(_ context.Context, _ string, watcher confmap.WatcherFunc) (*confmap.Retrieved, error) {
+func (p *v20Provider) Retrieve(_ context.Context, uri string, watcher confmap.WatcherFunc) (*confmap.Retrieved, error) {
 	w := p.w
+	if uri != "v20:cfg" {
+		// a further configuration source ("v20:x<u>", empty) or the expansion "v20a:n": retrieval
+		// number u of the current generation
+		w.mu.Lock()
+		g := w.retrieveN - 1
+		w.mu.Unlock()
+		u := w.nURI
+		var val any = "expanded"
+		if p.id == 0 {
+			fmt.Sscanf(uri, "v20:x%d", &u)
+			val = map[string]any{}
+		}
+		w.add(v20EvGetOk, g, u)
+		return confmap.NewRetrieved(val, confmap.WithRetrievedClose(func(context.Context) error {
+			w.add(v20EvClose, g, u)
+			return nil
+		}))
+	}
 	w.mu.Lock()
 	g := w.retrieveN
 	w.retrieveN++
@@ -185,7 +207,10 @@ func (p *v20Provider) Retrieve(_ context.Context, _ string, watcher confmap.Watc
 func (p *v20Provider) Shutdown(ctx context.Context) error {
 	w := p.w
 	w.mu.Lock()
-	w.provShut++
+	if p.id == 0 {
+		w.provShut++
+	}
+	w.provShutBy[p.id]++
 	first := !w.finalGated
 	if first {
 		w.finalGated = true
@@ -196,11 +221,11 @@ func (p *v20Provider) Shutdown(ctx context.Context) error {
 		w.pause(v20GateFinal)
 	}
 	if ctx.Err() == nil {
-		w.add(v20EvProvShutLive, 0, 0)
+		w.add(v20EvProvShutLive, p.id, 0)
 	} else {
-		w.add(v20EvProvShutDead, 0, 0)
+		w.add(v20EvProvShutDead, p.id, 0)
 	}
-	if w.provFail {
+	if w.provFail && p.id == 0 {
 		return errors.New("v20-provider-shutdown-fail")
 	}
 	return nil
@@ -213,6 +238,7 @@ type v20Cfg struct {
 	FailCreate   bool `mapstructure:"fail_create"`
 	FailStart    bool `mapstructure:"fail_start"`
 	FailShutdown bool `mapstructure:"fail_shutdown"`
+	Note         string `mapstructure:"note"`
 }
 
 func (w *v20World) compCfg(g, idx int) map[string]any {
@@ -247,9 +273,13 @@ func (w *v20World) conf(g int) map[string]any {
 	if gen.outKind == v20Invalid {
 		procList = append(procList, "v20p/99") // not configured: rejected by validation
 	}
+	recvCfg := w.compCfg(g, gen.nExt+gen.nProc+1)
+	if w.nAux >= 1 {
+		recvCfg["note"] = "${v20a:n}" // resolved through the expansion-only provider
+	}
 	return map[string]any{
 		"extensions": exts,
-		"receivers":  map[string]any{"v20r": w.compCfg(g, gen.nExt+gen.nProc+1)},
+		"receivers":  map[string]any{"v20r": recvCfg},
 		"processors": procs,
 		"exporters":  map[string]any{"v20e": w.compCfg(g, gen.nExt)},
 		"service": map[string]any{
@@ -932,32 +962,14 @@ type v20Result struct {
 
 func v20RunHistory(idx int) v20Result {
 	r := vNewRand(uint64(0xC20<<20) + uint64(idx))
-	w := &v20World{
-		arrived: make(chan int, 8), release: make(chan struct{}), quit: make(chan struct{}),
-		retireGated: map[int]bool{}, hosts: map[int][]component.Host{}, fatalSeen: map[int]int{},
-	}
+	w := v20NewWorld()
 	ngen := 6
 	for g := 0; g < ngen; g++ {
 		w.gens = append(w.gens, v20RandGen(r, g == 0))
 	}
 	w.provFail = r.Intn(100) < 10
-	nop := zap.WrapCore(func(zapcore.Core) zapcore.Core { return zapcore.NewNopCore() })
-	col, err := NewCollector(CollectorSettings{
-		BuildInfo:             component.NewDefaultBuildInfo(),
-		Factories:             w.factories,
-		SkipSettingGRPCLogger: true,
-		LoggingOptions:        []zap.Option{nop},
-		ConfigProviderSettings: ConfigProviderSettings{ResolverSettings: confmap.ResolverSettings{
-			URIs: []string{"v20:cfg"},
-			ProviderFactories: []confmap.ProviderFactory{confmap.NewProviderFactory(func(confmap.ProviderSettings) confmap.Provider {
-				return &v20Provider{w: w}
-			})},
-		}},
-	})
-	if err != nil {
-		panic(err)
-	}
-	w.col = col
+	w.nURI, w.nAux = 1+r.Pick(5, 3, 2), r.Pick(4, 4, 2)
+	col := v20NewCollector(w)
 	h := &v20Hist{w: w, r: r, runDone: make(chan struct{}), stats: map[string]int{}, liveGen: -1, fatalUsed: map[int]int{}}
 	h.ctx, h.cancel = context.WithCancel(context.Background())
 	defer h.cancel()
@@ -1164,13 +1176,27 @@ func v20ErrClass(err error) int {
 	return add + 9
 }
 
+// the resolver walks a Go map of providers: the order of their Shutdown calls is arbitrary; the
+// (consecutive) calls are put in provider order before anything is compared
+func v20SortProvShut(log []v20Ev) {
+	isPS := func(e v20Ev) bool { return e.kind == v20EvProvShutLive || e.kind == v20EvProvShutDead }
+	for i := 0; i < len(log); i++ {
+		for j := i + 1; j < len(log) && isPS(log[j]) && isPS(log[j-1]); j++ {
+			for k := j; k > i && isPS(log[k-1]) && log[k-1].a > log[k].a; k-- {
+				log[k-1], log[k] = log[k], log[k-1]
+			}
+		}
+	}
+}
+
 // v20LogOracle evaluates the property on the implementation's event log, independently of the Coq model.
-func v20LogOracle(fail func(kind, detail string), log []v20Ev, provShut int, returned, stopTaken bool, runErr error, final State) {
+func v20LogOracle(fail func(kind, detail string), log []v20Ev, provShutBy map[int]int, nProv int, returned, stopTaken bool, runErr error, final State) {
 	type key struct{ g, c int }
 	live := map[key]bool{}
 	started := map[key]bool{}
 	shut := map[key]int{}
-	closes := map[int]int{}
+	closes := map[key]int{}
+	opened := map[key]bool{}
 	sawClosed := false
 	for i, e := range log {
 		if sawClosed {
@@ -1196,10 +1222,12 @@ func v20LogOracle(fail func(kind, detail string), log []v20Ev, provShut int, ret
 			if shut[key{e.a, e.b}] > 1 {
 				fail("component-shutdown-twice", fmt.Sprintf("generation %d component %d", e.a, e.b))
 			}
+		case v20EvGetOk:
+			opened[key{e.a, e.b}] = true
 		case v20EvClose:
-			closes[e.a]++
-			if closes[e.a] > 1 {
-				fail("retrieved-closed-twice", fmt.Sprintf("generation %d", e.a))
+			closes[key{e.a, e.b}]++
+			if closes[key{e.a, e.b}] > 1 {
+				fail("retrieved-closed-twice", fmt.Sprintf("generation %d retrieval %d", e.a, e.b))
 			}
 		case v20EvProvShutLive, v20EvProvShutDead:
 			if e.phase != StateClosing {
@@ -1210,8 +1238,10 @@ func v20LogOracle(fail func(kind, detail string), log []v20Ev, provShut int, ret
 			sawClosed = true
 		}
 	}
-	if provShut > 1 {
-		fail("provider-shutdown-twice", fmt.Sprint(provShut))
+	for p, n := range provShutBy {
+		if n > 1 {
+			fail("provider-shutdown-twice", fmt.Sprintf("registered provider %d shut down %d times", p, n))
+		}
 	}
 	if returned {
 		for k := range live {
@@ -1221,8 +1251,15 @@ func v20LogOracle(fail func(kind, detail string), log []v20Ev, provShut int, ret
 			if final != StateClosed {
 				fail("stop-not-closed", "final state "+final.String())
 			}
-			if provShut != 1 {
-				fail("provider-shutdown-count", fmt.Sprintf("stopped run: provider shut down %d times", provShut))
+			for p := 0; p < nProv; p++ { // EVERY registered provider, whether it served a URI, an expansion or nothing
+				if provShutBy[p] != 1 {
+					fail("provider-shutdown-count", fmt.Sprintf("stopped run: registered provider %d of %d shut down %d times", p, nProv, provShutBy[p]))
+				}
+			}
+			for k := range opened {
+				if closes[k] != 1 {
+					fail("retrieved-close-count", fmt.Sprintf("stopped run: retrieval %d of generation %d closed %d times", k.c, k.g, closes[k]))
+				}
 			}
 			for k := range started {
 				if shut[k] != 1 {
@@ -1240,12 +1277,16 @@ func (h *v20Hist) finish() v20Result {
 	w := h.w
 	w.mu.Lock()
 	log := append([]v20Ev(nil), w.log...)
-	provShut := w.provShut
+	provShutBy := map[int]int{}
+	for k, v := range w.provShutBy {
+		provShutBy[k] = v
+	}
 	w.mu.Unlock()
+	v20SortProvShut(log)
 	returned := h.pc == v20PcDone
 	final := w.col.GetState()
 
-	v20LogOracle(h.fail, log, provShut, returned, h.stopTaken, h.runErr, final)
+	v20LogOracle(h.fail, log, provShutBy, 1+w.nAux, returned, h.stopTaken, h.runErr, final)
 	// case term
 	gs := make([]string, len(w.gens))
 	for i, g := range w.gens {
@@ -1262,10 +1303,11 @@ func (h *v20Hist) finish() v20Result {
 	} else {
 		h.stats["ret_never"]++
 	}
-	term := vPair(vPair(vList(gs), vBool(w.provFail)),
+	term := vPair(vPair(vList(gs), vPair(vBool(w.provFail), vPair(vNat(w.nURI), vNat(w.nAux)))),
 		vPair(vList(h.labels), vPair(vList(h.samples), vPair(vList(ls), vNat(ret)))))
 	h.stats["histories"]++
 	h.stats[fmt.Sprintf("generations_%d", w.retrieveN)]++
+	h.stats[fmt.Sprintf("topology_uris%d_aux%d", w.nURI, w.nAux)]++
 	h.stats["labels"] += len(h.labels)
 	for g := 0; g < w.retrieveN && g < len(w.gens); g++ {
 		h.stats[fmt.Sprintf("bringup_%d", w.gens[g].outKind)]++
